@@ -32,7 +32,7 @@ Dom == [d \in Dims |->
   CASE d = "kinds"   -> {"all", "typedef", "const", "enum", "struct", "union", "exception", "service"}
     [] d = "shapes"  -> {ToString(i) : i \in 0..(NBatches - 1)}
     [] d = "reqdef"  -> {"mixed", "required", "optional", "default", "optional+value", "default+value"}
-    [] d = "inc"     -> {"single", "chain3", "diamond", "samens", "samebase"}
+    [] d = "inc"     -> {"single", "chain3", "diamond", "samens", "samebase", "pkg-b", "pkg-p", "pkg-err", "pkg-thrift"}
     [] d = "tdchain" -> {"0", "1", "2", "3"}
     [] d = "ids"     -> {"pos", "neg", "implicit", "mixed"}
     [] d = "svc"     -> {"mixed", "void", "value", "oneway"}
